@@ -48,7 +48,7 @@ def cache_dir():
     global _cache_key
     if _cache_key is None:
         files = tree_files(os.path.join(REPO, 'src')) + tree_files(os.path.join(VERIF, 'inst')) + \
-            [os.path.join(VERIF, 'tools', 'll2c.py'), os.path.join(VERIF, 'tools', 'vf.py'), os.path.join(VERIF, 'tools', 'layout.py'), os.path.join(VERIF, 'tools', 'vec.py'), os.path.join(VERIF, 'tools', 'cmp.py'), os.path.join(VERIF, 'tools', 'conv.py'), os.path.join(VERIF, 'tools', 'refops.py'), os.path.join(VERIF, 'tools', 'elem.py')]
+            [os.path.join(VERIF, 'tools', 'll2c.py'), os.path.join(VERIF, 'tools', 'vf.py'), os.path.join(VERIF, 'tools', 'layout.py'), os.path.join(VERIF, 'tools', 'vec.py'), os.path.join(VERIF, 'tools', 'cmp.py'), os.path.join(VERIF, 'tools', 'conv.py'), os.path.join(VERIF, 'tools', 'refops.py'), os.path.join(VERIF, 'tools', 'elem.py'), os.path.join(VERIF, 'tools', 'excv.py')]
         _cache_key = _sha(files)
     d = os.path.join(BUILD, _cache_key)
     os.makedirs(d, exist_ok=True)
